@@ -512,6 +512,18 @@ def check_case(case: dict[str, Any], col: common.Collector) -> None:
                     a2 = minimise_assignment(asg, fails)
                 except Exception:  # noqa: BLE001
                     a2 = asg
+            if a2 is not asg and a2:
+                # attribution once more on the minimal assignment (its kernel is simpler and
+                # more often within the kernel-level interpreter's reach)
+                try:
+                    v3 = run_variant(spec, a2, False, vset)
+                    if v3["status"] == "ok":
+                        p3 = compare_variant(spec, base, v3, ref, spread)
+                        p3 = attribute(spec, a2, v3, p3, ref, spread, vset, col)
+                        if not any(c == coarse for c, _w, _e in p3):
+                            continue
+                except Exception:  # noqa: BLE001
+                    pass
             col.violation(f"{coarse}:{tagsig(spec, a2, strip)}", what,
                           {**wit, "asg": a2, **extra})
 
